@@ -26,15 +26,22 @@ class VecDAE(VecMulti):
     components = ('diff', 'alg')
 
 
+class VecFlat(Vec):
+    """mesh twin with numpy's flatten() (a copy)"""
+
+    def flatten(self):
+        return VecFlat(self)
+
+
 class DAEProblem(AbstractProblem):
     def __init__(self, kind='dae-full', name='P', **kw):
         super().__init__(kind='full', name=name)
         self.kind = kind
-        self.dtype_u = self.dtype_f = Vec if kind == 'dae-full' else VecDAE
+        self.dtype_u = self.dtype_f = VecFlat if kind == 'dae-full' else VecDAE
 
     def _fresh(self, nm):
         if self.kind == 'dae-full':
-            return Vec.atom(nm)
+            return VecFlat(Vec.atom(nm))
         r = VecDAE()
         r.diff, r.alg = Vec.atom(nm + '.diff'), Vec.atom(nm + '.alg')
         return r
@@ -234,4 +241,63 @@ class SemiImplicitUpdate(_DaeBase):
         yield 'canary:algebraic_part_unchanged', veq(L.u[M].alg, st.old_u[M].alg)
 
 
-CONTRACTS = [FullyImplicitUpdate, FullyImplicitF, SemiImplicitF, SemiImplicitIntegrate, SemiImplicitUpdate]
+
+class RKDAEUpdate(_DaeBase):
+    """Runge-Kutta for fully implicit DAEs: stage derivatives K_m solve 0 = F(u0 + dt*sum_{j<m} A[m,j] K_j + dt*A[m,m] K, K, t + c_m dt)
+    (guess: previous stage derivative), then U_m = u0 + dt*sum_j A[m,j] K_j; the last stage derivative is kept as start value of the next step"""
+
+    name = 'RungeKuttaDAE.update_nodes'
+    target = (DAE + 'rungeKuttaDAE.py', 'RungeKuttaDAE.update_nodes')
+
+    def instances(self, tier):
+        return [dict(cls='BackwardEulerDAE', M=1), dict(cls='TrapezoidalRuleDAE', M=2), dict(cls='EDIRK4DAE', M=4)]
+
+    def build(self, inst, mk):
+        import numpy as onp
+
+        M = inst['M']
+        L = make_level(cls_of(DAE + 'rungeKuttaDAE.py', inst['cls']), M, mk, kind='dae-full', fill=False, sweeper_params={}, problem_class=DAEProblem, problem_params=dict(kind='dae-full'))
+        sw, P = L.sweep, L.prob
+        assert sw.coll.num_nodes == M
+        sw.coll.Qmat = mk.matrix('L.A', M + 1, M + 1, lower)
+        sw.QI = sw.coll.Qmat
+        sw.coll.nodes = onp.array([0] + [mk.real(f'L.c_{i}') for i in range(M)], dtype=object)
+        L.u[0] = P._fresh('L.u0')
+        L.f[0] = P._fresh('L.du0')
+        for m in range(1, M + 1):
+            L.u[m] = VecFlat()
+            L.f[m] = VecFlat()
+        L.status.unlocked = True
+        L.status.sweep = 1
+        return State(L=L, M=M, call=sw.update_nodes)
+
+    def post(self, st, old, result, exc):
+        L, M, sw, P = st.L, st.M, st.L.sweep, st.L.prob
+        dt, A, c = L.dt, sw.QI, sw.coll.nodes
+        yield 'returns_normally', exc is None
+        if exc is not None:
+            return
+        from pySDC.projects.DAE.sweepers.fullyImplicitDAE import FullyImplicitDAE
+
+        yield 'one_solve_per_stage', len(P.solves) == M
+        for m in range(1, M + 1):
+            rec = P.find_solve(L.f[m])
+            yield f'K{m}:is_the_result_of_a_solve', rec is not None
+            if rec is None:
+                continue
+            yield f'K{m}:u_approx', veq(rec.u_approx, cp(st.old_u[0]) + vsum(dt * A[m, j] * L.f[j] for j in range(1, m)))
+            yield f'K{m}:factor', seq(rec.factor, dt * A[m, m])
+            yield f'K{m}:time', seq(rec.t, L.time + dt * c[m])
+            yield f'K{m}:guess_is_previous_stage_derivative', veq(rec.u0, L.f[m - 1])
+            yield f'K{m}:implicit_system_is_FullyImplicitDAE.F', rec.fn is FullyImplicitDAE.F or rec.fn == FullyImplicitDAE.F
+        for m in range(1, M + 1):
+            yield f'U{m}:u0_plus_dtAK', veq(L.u[m], cp(st.old_u[0]) + vsum(dt * A[m, j] * L.f[j] for j in range(1, M + 1)))
+        yield 'last_stage_derivative_kept_for_the_next_step', veq(sw.du_init, L.f[M]) and sw.du_init is not L.f[M]
+        yield 'u0_untouched', And(veq(L.u[0], st.old_u[0]), veq(L.f[0], st.old_f[0]))
+        yield 'status.updated', L.status.updated is True
+
+    def canary(self, st, old, result, exc):
+        yield 'canary:stage_value_is_u0', veq(st.L.u[st.M], st.old_u[0])
+
+
+CONTRACTS = [FullyImplicitUpdate, FullyImplicitF, SemiImplicitF, SemiImplicitIntegrate, SemiImplicitUpdate, RKDAEUpdate]
